@@ -122,7 +122,16 @@ def rule_find(model, rep):
             if isinstance(par, ast.If):
                 guards.append(ast.unparse(par.test))
             cur = par
-        ok = guards == ["isinstance(token, int)"] and (convs[0].lineno, convs[0].col_offset) < (subs[0].lineno, subs[0].col_offset) and unit_t.parent(convs[0]) is unit_t.parent(subs[0])
+        ok = guards == ["isinstance(token, int)"] and (convs[0].lineno, convs[0].col_offset) < (subs[0].lineno, subs[0].col_offset)
+    # bytes that are not text at all are not a code either: the conversion's UnicodeDecodeError is answered as MalformedTokenError
+    guarded = False
+    if convs:
+        t_ = unit_t.enclosing(convs[0], ast.Try)
+        guarded = t_ is not None and any(h.type is not None and any(k in ast.unparse(h.type) for k in ("UnicodeDecodeError", "UnicodeError", "ValueError"))
+                                         and any(isinstance(x, ast.Raise) and "MalformedTokenError" in ast.unparse(x) for x in h.body) for h in t_.handlers)
+    rep.check(guarded, R, s2 + " undecodable bytes", "to_unicode(token) inside try/except -> MalformedTokenError" if guarded else "to_unicode(token, param='token')  # UnicodeDecodeError escapes",
+              "a bytes token that is not valid text is malformed (MalformedTokenError), not an internal decoding error",
+              witness="match(b'\xff58932', t) raises UnicodeDecodeError, which is no TokenError: an application catching TokenError around match() crashes on submitted input")
     rep.check(ok, R, s2 + " separators for str and bytes", "; ".join(ast.unparse(a) for a in convs + subs)[:140],
               "separators are stripped after the token has been converted to text, for every non-integer token",
               witness="match(b'332 136', t) raises MalformedTokenError although match('332 136', t) is accepted")
